@@ -153,6 +153,38 @@ fn flip_case(st: &ST) -> Option<ST> {
         _ => None,
     }
 }
+/// terms that differ from `st` in ONE respect (a tag / IRI / label that extends or is a prefix of the original, another
+/// lexical form or datatype, a quoted triple with the same atoms bracketed differently or with two components swapped)
+fn chop(s: &str) -> &str { let mut c = s.chars(); c.next_back(); c.as_str() }
+fn near_variants(st: &ST, r: &mut Rng) -> Vec<ST> {
+    let ext = |x: &str| format!("{x}a");
+    match st {
+        SimpleTerm::LiteralLanguage(l, tag) => { let t = tag.as_str(); let mut v = vec![lit_lang(l, &format!("{t}-GB")), lit_lang(&ext(l), t), lit_dt(l, &format!("{XSD}string")), lit_dt(l, "http://www.w3.org/1999/02/22-rdf-syntax-ns#langString")]; if let Some(k) = t.find('-') { v.push(lit_lang(l, &t[..k])); } v }
+        SimpleTerm::LiteralDatatype(l, d) => vec![lit_dt(l, &ext(d.as_str())), lit_dt(&ext(l), d.as_str()), lit_lang(l, "en"), lit_dt(l, chop(d.as_str()))],
+        SimpleTerm::Iri(i) => vec![iri(&ext(i.as_str())), iri(chop(i.as_str())), lit_dt(i.as_str(), &format!("{XSD}string")), lit_dt("", i.as_str())],
+        SimpleTerm::BlankNode(b) => vec![bnode(&ext(b.as_str())), var(b.as_str()), iri(&format!("x:{}", b.as_str()))],
+        SimpleTerm::Variable(x) => vec![var(&ext(x.as_str())), bnode(x.as_str())],
+        SimpleTerm::Triple(tr) => {
+            let (a, b, c) = (tr[0].clone(), tr[1].clone(), tr[2].clone());
+            let mut v = vec![triple(c.clone(), b.clone(), a.clone()), triple(a.clone(), c.clone(), b.clone())];
+            if let SimpleTerm::Triple(x) = &a { v.push(triple(x[0].clone(), x[1].clone(), triple(x[2].clone(), b.clone(), c.clone()))); }
+            if let SimpleTerm::Triple(x) = &c { v.push(triple(triple(a.clone(), b.clone(), x[0].clone()), x[1].clone(), x[2].clone())); }
+            let k = r.below(3); let inner = near_variants(&tr[k], r); if !inner.is_empty() { let w = inner[r.below(inner.len())].clone(); let mut parts = [a, b, c]; parts[k] = w; v.push(triple(parts[0].clone(), parts[1].clone(), parts[2].clone())); }
+            v
+        }
+    }
+}
+/// the std traits of a type holding terms must tell the same story as the Term methods
+fn std_traits_agree<T: Term + Ord + Eq + std::hash::Hash>(x: &T, y: &T) -> Option<String> {
+    let (te, tc) = (Term::eq(x, y.borrow_term()), Term::cmp(x, y.borrow_term()));
+    if (x == y) != te { return Some(format!("== gives {} but Term::eq gives {te}", x == y)); }
+    if Ord::cmp(x, y) != tc { return Some(format!("Ord::cmp gives {:?} but Term::cmp gives {tc:?}", Ord::cmp(x, y))); }
+    if x.partial_cmp(y) != Some(tc) { return Some(format!("partial_cmp gives {:?} but Term::cmp gives {tc:?}", x.partial_cmp(y))); }
+    if (x < y) != (tc == Ordering::Less) || (x > y) != (tc == Ordering::Greater) || (x <= y) != (tc != Ordering::Greater) { return Some(format!("the operators <, >, <= disagree with Term::cmp = {tc:?}")); }
+    let h = |t: &T| { let mut r = Rec::default(); std::hash::Hash::hash(t, &mut r); r.0 };
+    if te && h(x) != h(y) { return Some("equal values have different std hashes".into()); }
+    None
+}
 fn c_cmp(o: Ordering) -> &'static str { match o { Ordering::Less => "Lt", Ordering::Equal => "Eq", Ordering::Greater => "Gt" } }
 
 fn main() {
@@ -174,6 +206,8 @@ non-trivial pair = equal-but-differently-spelled terms, or same-kind unequal ter
         // equal-but-differently-spelled twins: every tagged term also appears with its tag case swapped
         let twins: Vec<Abs> = pool.iter().filter_map(|x| flip_case(&x.st)).map(|st| Abs { st, native: Native::None, ns_split: vec![] }).collect();
         pool.extend(twins.into_iter().take(4));
+        // near misses: for a few terms of the pool, terms differing from them in one respect only
+        for _ in 0..3 { let k = r.below(pool_size); let nv = near_variants(&pool[k].st.clone(), &mut r); for st in nv.into_iter().take(3) { pool.push(Abs { st, native: Native::None, ns_split: vec![] }); } }
         let mut arc_stash = ArcStrStash::new(); let mut rc_stash = RcStrStash::new();
         let all: Vec<Vec<Rep>> = pool.iter().map(|x| reps(x, &mut arc_stash, &mut rc_stash)).collect();
         for (i, x) in pool.iter().enumerate() { header.push_str(&format!("Definition t{b}_{i} : term := {}.\n", coq_term(&x.st))); }
@@ -220,6 +254,21 @@ non-trivial pair = equal-but-differently-spelled terms, or same-kind unequal ter
                 if (c == Ordering::Equal) != e { sum.oracle_failures.push((format!("{b}"), format!("cmp Equal <-> eq violated: {} {:?} / {} {:?}", rep_name(ra), pool[i].st, rep_name(rb), pool[j].st))); }
                 sum.bump("pair-in-rep-pair");
             } }
+            // std traits (PartialEq / Ord / PartialOrd / Hash) of the term types that have them
+            for ra in &all[i] { for rb in &all[j] {
+                let d = match (ra, rb) {
+                    (Rep::Simple(x), Rep::Simple(y)) => std_traits_agree(x, y), (Rep::Arc(x), Rep::Arc(y)) => std_traits_agree(x, y), (Rep::Rc(x), Rep::Rc(y)) => std_traits_agree(x, y),
+                    (Rep::ArcStashed(x), Rep::Arc(y)) => std_traits_agree(x, y), (Rep::GenLit(x), Rep::GenLit(y)) => std_traits_agree(x, y),
+                    (Rep::Cmp(x), Rep::Cmp(y)) => std_traits_agree(x, y), (Rep::CmpArc(x), Rep::CmpArc(y)) => std_traits_agree(x, y),
+                    _ => None };
+                if let Some(d) = d { sum.oracle_failures.push((format!("{b}"), format!("std traits of {}: {d}; for {:?} / {:?}", rep_name(ra), pool[i].st, pool[j].st))); }
+            } }
+            if let (SimpleTerm::LiteralLanguage(_, t1), SimpleTerm::LiteralLanguage(_, t2)) = (&pool[i].st, &pool[j].st) {
+                let exp = t1.as_str().to_ascii_lowercase().cmp(&t2.as_str().to_ascii_lowercase());
+                let h = |t: &sophia_api::term::LanguageTag<_>| { let mut r = Rec::default(); std::hash::Hash::hash(t, &mut r); r.0 };
+                if Ord::cmp(t1, t2) != exp || (t1 == t2) != (exp == Ordering::Equal) || t1.partial_cmp(t2) != Some(exp) || (exp == Ordering::Equal && h(t1) != h(t2)) {
+                    sum.oracle_failures.push((format!("{b}"), format!("LanguageTag {:?} vs {:?}: cmp={:?} eq={} but the case-folded tags compare {exp:?}", t1.as_str(), t2.as_str(), Ord::cmp(t1, t2), t1 == t2))); }
+            }
             let text = format!("{:?}|{:?}", pool[i].st, pool[j].st);
             let nontrivial = (e0 && format!("{:?}", pool[i].st) != format!("{:?}", pool[j].st)) || (!e0 && pool[i].st.kind() == pool[j].st.kind());
             if seen.insert(text) && nontrivial { sum.distinct_nontrivial += 1; }
